@@ -22,7 +22,7 @@ LEVEL = "exploration"
 RULE = ("a case is (line topology of 1..3 switches, buffer pool size, "
         "sequence of host frames: (host, attachment point, destination "
         "host / broadcast / multicast / LLDP / STP address, ethertype "
-        "variant, size, virtual-time gap 0/5/11/31 s)); all sequences up to "
+        "variant, size, virtual-time gap 0/5/11/12.5/13.5/31/32.5 s)); all sequences up to "
         "length 3 (quick) / 4 (thorough) over 3 hosts on 1-2 switches are "
         "enumerated, random ones to length 200 include host moves; "
         "non-trivial = some frame was forwarded by a cached flow or a host "
@@ -545,7 +545,9 @@ def gen_random (rng, count, maxlen):
                             "arp", "tcp", "icmp", "llc", "vlan_ip", "frag", "frag_first"]
                            if rng.random() < 0.35 else ["plain"])
       size = rng.choice([42, 50, 100, 124, 200, 1400])
-      gap = rng.choice([0, 0, 0, 0, 5, 11, 31])
+      # (10 s idle, 30 s hard, a table sweep every 2 s: gaps that end just
+      #  after the sweep that had to remove a flow, too)
+      gap = rng.choice([0, 0, 0, 0, 0, 0, 5, 5, 11, 11, 31, 31, 12.5, 13.5, 32.5])
       if ops and rng.random() < 0.2 and ops[-1][1] == att[h][0]:
         gap = -1                     # arrives together with the frame before
       ops.append([h, att[h][0], att[h][1], d, variant, size, gap])
